@@ -59,7 +59,10 @@ func untrackCommand(cmd *cobra.Command, args []string) {
 func removePath(path string, args []string) bool {
 	withoutCurrentDir := tools.TrimCurrentPrefix(path)
 	for _, t := range args {
-		if withoutCurrentDir == escapeAttrPattern(tools.TrimCurrentPrefix(t)) {
+		arg := tools.TrimCurrentPrefix(t)
+		// The entry may have been written by `git lfs track <pattern>` or
+		// by `git lfs track --filename <name>`, which escape differently.
+		if withoutCurrentDir == escapeAttrPattern(arg) || withoutCurrentDir == escapeGlobCharacters(arg) {
 			return true
 		}
 	}
